@@ -478,6 +478,8 @@ def run(tier, seed):
     par.pmap(work_byte_values, byte_value_tasks(), stats=st, chunk=2)
     from props import delivery as _DL
     par.pmap(_DL.work, _DL.tasks(tier), extra=(('names',),), stats=st, chunk=12)
+    from props import decor as _DC
+    par.pmap(_DC.work, _DC.tasks(tier), extra=(('names',),), stats=st, chunk=8)
     validated = H.validate_traces(validation_cases(cs, seed, 40 if tier == 'quick' else 200), st)
     return evidence.finish(
         PID, tier, seed, st, t0,
